@@ -1,3 +1,4 @@
+import json
 """C56 — flattened / JSON-round-tripped log events format like the original.
 
 Tie: real formatEvent / flattenEvent / eventAsJSON / eventFromJSON (and string.Formatter.parse) vs the Lean
@@ -25,8 +26,8 @@ ASSUMES = [
     "__dict__, …): the model's getattr goes straight to the wrapped value (such names are exercised oracle-only)",
     "values: format(v, '') == str(v) (true of str/int/bool/None/list/dict and every object without its own "
     "__format__); an object whose __format__('') differs from its str() is exercised oracle-only",
-    "dict keys inside values are str; no floats/bytes/Failure/LogLevel values (their JSON forms are outside the "
-    "formatted-text observable: flatFormat reads only the stored str/repr/ascii texts)",
+    "dict keys inside values are str; bytes and float values are exercised ORACLE-ONLY (no Lean counterpart; added "
+    "after seeded change C56-1 was missed); no Failure/LogLevel values",
     "str.isprintable() is approximated in the concrete repr oracle for the code points the generator uses",
 ]
 TRUSTED = ["CPython string.Formatter.parse / formatter_field_name_split as transcribed in the model (tied by the 'parse' "
@@ -144,6 +145,10 @@ def build(v):
         return Obj(s, r, at) if ret is None else CObj(s, r, at, build(ret))
     if k == "fo":
         return FObj(x[0], x[1], [])
+    if k == "y":                      # bytes value (oracle-only: no Lean counterpart)
+        return bytes.fromhex(x)
+    if k == "f":                      # float value (oracle-only)
+        return float(x)
     raise ValueError(k)
 
 
@@ -331,6 +336,8 @@ def corpus():
         {"op": "all", "fmt": "{x!a}", "fields": [["x", T("é€")]]},
         {"op": "all", "fmt": "{x().y}", "fields": [["x", fn]]},
         {"op": "all", "fmt": "{o.f().y} {o.f()} {o.a}", "fields": [["o", o]]},
+        {"op": "all", "fmt": "line {x} {x!r}", "fields": [["x", {"y": "474554202f20485454502f312e31"}]], "oracle_only": True},
+        {"op": "all", "fmt": "{o.m} {l[0]}", "fields": [["o", {"o": ["s", "r", [["m", {"y": "c3a9"}]], None]}], ["l", {"l": [{"y": ""}]}]], "oracle_only": True},
         {"op": "all", "fmt": "{x.__class__.__name__}", "fields": [["x", I(3)]], "oracle_only": True},
         {"op": "all", "fmt": "{x._wrapped}", "fields": [["x", I(3)]], "oracle_only": True},
         {"op": "all", "fmt": "{x} and {x!r}", "fields": [["x", {"fo": ["fo-s", "fo-r"]}]], "oracle_only": True},
@@ -364,8 +371,12 @@ def _val(rng, depth, allow_call=True):
             return T(_text(rng))
         if k < 0.8:
             return I(rng.choice([0, 1, 7, 42, -1, -305, 255, 10, 99, 100, 2**70, rng.randint(-10**6, 10**6)]))
-        if k < 0.9:
+        if k < 0.86:
             return {"b": rng.random() < 0.5}
+        if k < 0.93:                  # bytes with deterministic str/repr: valid UTF-8, invalid UTF-8, empty
+            return {"y": rng.choice(["", "474554202f20485454502f312e31", "c3a9", "ff00fe", "61", "0a27"])}
+        if k < 0.96:
+            return {"f": rng.choice(["0.5", "-1.25", "1e+300", "3.0", "0.1"])}
         return {"n": None}
     if r < 0.6:
         return {"l": [_val(rng, depth - 1) for _ in range(rng.randint(0, 3))]}
@@ -491,7 +502,10 @@ def _gen_all(rng, mode):
         fmt += r + _literal(rng)
     if broken and rng.random() < 0.3:
         fmt += rng.choice(["{", "}", "{x", "{a!}", "{a!r", "{a!rs}", "{a:{", "{a[}", "{{}", "{a{b}}"])
-    return {"op": "all", "fmt": fmt, "fields": fields, "mode": mode}
+    c = {"op": "all", "fmt": fmt, "fields": fields, "mode": mode}
+    if '"y"' in json.dumps(fields) or '"f"' in json.dumps(fields):
+        c["oracle_only"] = True       # bytes / float values have no Lean model: judged by the oracle on the real code only
+    return c
 
 
 MALFORMED_ALPHA = ["{", "}", "{", "}", "[", "]", "!", ":", ".", "(", ")", "a", "b", "0", " ", "r"]
